@@ -127,6 +127,8 @@ class World:
             return not self.ev_rexpr(r[1])
         if k == "ite":
             return self.ev_rexpr(r[2]) if self.ev_rexpr(r[1]) else self.ev_rexpr(r[3])
+        if k == "bit":
+            return bool((self.ev_rexpr(r[1]) >> r[2]) & 1)
         raise Divergence(f"cannot evaluate {r!r} concretely")
 
     # primitive operations ---------------------------------------------------------------
